@@ -86,6 +86,7 @@ func main() {
 	w := workers()
 	if os.Getenv("VERIF_BATCH_CHILD") != "" || w == 1 || len(cases) < 2*w {
 		for i := range cases {
+			setCtxZoo(cases[i].Cfg)
 			o := run(&cases[i])
 			o.ID = cases[i].ID
 			if err := enc.Encode(o); err != nil {
